@@ -26,10 +26,16 @@ m = {
     "not_applicable": [],
     "notes": "DESIGN.md explains the approach, the trusted base and, per property, which checks catch which seeded changes; KNOWN_FINDINGS.json lists repaired (fixed:) and recorded (open) genuine defects.",
 }
+def pinned(pid):
+    import re
+    f = os.path.join(V, 'coq', 'theories', 'Properties', pid + '.v')
+    return len(re.findall(r'^Theorem\s', open(f).read(), re.M)) if os.path.exists(f) else 0
 for p in props:
     pid = p['id']
     if pid in claims:
         c = claims[pid]
+        import re
+        c['text'] = re.sub(r'now \d+ pinned theorems in Properties/%s\.v' % pid, 'now %d pinned theorems in Properties/%s.v' % (pinned(pid), pid), c['text'])
         m['checks'].append({
             "property_id": pid,
             "quick_cmd": "./check %s --tier quick" % pid,
